@@ -46,6 +46,12 @@ ASSUMPTIONS = [
     "a ball save's announced saves are matched against Playfield.add_ball calls made from BallSave code (caller "
     "identified on the call stack); ball saves are configured without delayed_eject_events and without ball_locks",
     "handlers hold balldevice_<dev>_ball_eject_attempt for 0..10 virtual s (like diverters do); never indefinitely",
+    "request_served also flags a request parked in the private queue of a device nothing feeds (lock, playfield VUK) "
+    "while an idle trough/plunger/drain device on a path to its target has an available ball - only in cases without "
+    "lost-ball handling, coil-test pulses or ball_holds (which may legitimately leave such requests)",
+    "multiballs with ball_locks are combined with a multiball_lock (mode device), not with a ball_hold",
+    "while the loop spins at one instant the virtual clock is moved to the next scheduled timer (as real time would "
+    "pass), for at most 120 forced seconds per episode; only a spin that survives that is a livelock",
     "zero_time_livelock: 100000 loop iterations without the virtual clock advancing (deterministic, not wall clock)",
     "same physical envelope as C04 (no diverters, one ball per pulse, no jam switches, entrance devices without "
     "undetectable faults, bounce on overflow)",
